@@ -58,7 +58,11 @@ TRet == /\ IsEv("ret")
              [] OTHER -> FALSE
         /\ pend' = [pend EXCEPT ![Ev.t] = Idle]
         /\ UNCHANGED mem
-TNext == TReset \/ TInv \/ TRet \/ \E t \in Threads : TLin(t) \/ TLinElem(t)
+\* a batch of free-running rounds with stable members, never-added values and churn on other values, summarised: "Has never
+\* reports a value that was never added or misses one that is stably present" (and Len stays between the stable count and
+\* stable + churn values)
+TStable == IsEv("stable") /\ Ev.misses = 0 /\ Ev.ghosts = 0 /\ Ev.lenbad = 0 /\ UNCHANGED <<mem, pend>>
+TNext == TStable \/ TReset \/ TInv \/ TRet \/ \E t \in Threads : TLin(t) \/ TLinElem(t)
 TSpec == TInit /\ [][TNext]_vars
 Track == TrackL(l)
 Accepted == AcceptedP
